@@ -16,7 +16,9 @@ import io
 import os
 
 ERRNOS = {"ENOSPC": _errno.ENOSPC, "EIO": _errno.EIO, "EDQUOT": _errno.EDQUOT, "EPIPE": _errno.EPIPE,
-          "EFBIG": _errno.EFBIG, "ENXIO": _errno.ENXIO, "EROFS": _errno.EROFS}
+          "EFBIG": _errno.EFBIG, "ENXIO": _errno.ENXIO, "EROFS": _errno.EROFS,
+          # error numbers without a symbolic name in Python's errno module (e.g. ENOTSUPP leaking from NFS/overlayfs)
+          "E524": 524, "E133": 133}
 
 
 class SimCrash(BaseException):
